@@ -862,17 +862,27 @@ func (r *Runtime) newPrimitiveObject(value Value, proto *Object, class string) *
 	return v
 }
 
+// bigIntToNumber is Number(bigint): the nearest float64 (ties to even, ±Infinity beyond the range).
+// big.Int.Int64 is undefined when the value does not fit an int64.
+func bigIntToNumber(b *big.Int) Value {
+	if b.IsInt64() {
+		return intToValue(b.Int64())
+	}
+	f, _ := new(big.Float).SetInt(b).Float64()
+	return floatToValue(f)
+}
+
 func (r *Runtime) builtin_Number(call FunctionCall) Value {
 	if len(call.Arguments) > 0 {
 		switch t := call.Arguments[0].(type) {
 		case *Object:
 			primValue := t.toPrimitiveNumber()
 			if bigint, ok := primValue.(*valueBigInt); ok {
-				return intToValue((*big.Int)(bigint).Int64())
+				return bigIntToNumber((*big.Int)(bigint))
 			}
 			return primValue.ToNumber()
 		case *valueBigInt:
-			return intToValue((*big.Int)(t).Int64())
+			return bigIntToNumber((*big.Int)(t))
 		default:
 			return t.ToNumber()
 		}
@@ -888,12 +898,12 @@ func (r *Runtime) builtin_newNumber(args []Value, proto *Object) *Object {
 		case *Object:
 			primValue := t.toPrimitiveNumber()
 			if bigint, ok := primValue.(*valueBigInt); ok {
-				v = intToValue((*big.Int)(bigint).Int64())
+				v = bigIntToNumber((*big.Int)(bigint))
 			} else {
 				v = primValue.ToNumber()
 			}
 		case *valueBigInt:
-			v = intToValue((*big.Int)(t).Int64())
+			v = bigIntToNumber((*big.Int)(t))
 		default:
 			v = t.ToNumber()
 		}
